@@ -100,6 +100,16 @@ impl Thread {
                             .and_then(|i| i.as_i64())
                             .ok_or(StoryError::BadJson("Invalid pointer index".to_owned()))?
                             as i32;
+                        // save_state never writes an index beyond the container's content
+                        if let Some(container) = &pointer.container
+                            && (pointer_index < -1
+                                || (pointer_index >= 0
+                                    && pointer_index as usize > container.content.len()))
+                        {
+                            return Err(StoryError::BadJson(
+                                "Pointer index out of range".to_owned(),
+                            ));
+                        }
                         pointer.index = pointer_index;
 
                         if thread_pointer_result.approximate {
